@@ -89,6 +89,7 @@ def render(d, maxtime=5):
 
 class C15(object):
     id = 'C15'
+    anchors = ('EquationSolver.CalculateInitialSteadyState', 'EquationSolver._GetCopy', 'EquationSolver.SolveStep')
     title = 'An accepted initial steady state really is steady'
     rule = ('one case = one linear lag system x_k = A x_{k-1} + b (1-3 blocks: stable, slow, unit, unstable <= 2, '
             'negative, oscillating, complex stable/unit/unstable eigenvalues; fixed points positive, negative, zero, '
